@@ -7,10 +7,10 @@ import json, sys, os, shutil, re
 for f in sys.argv[1:]:
     res = json.load(open(f))
     for name, r in res.items():
-        m = re.match(r'(C\d\d)-(r[234567])?s(\d+)$', name)
+        m = re.match(r'(C\d\d)-(r[2345678])?s(\d+)$', name)
         if not m: continue
         prop, rnd, n = m.group(1), m.group(2) or '', m.group(3)
-        src = {'': f'/tmp/wt-out/{prop}/{n}', 'r2': f'/tmp/wt2-out/{prop}/{n}', 'r3': f'/tmp/wt3-out/{prop}/{n}', 'r4': f'/tmp/wt6-out/{prop}/{n}', 'r5': f'/tmp/wt8-out/{prop}/{n}', 'r6': f'/tmp/wt10-out/{prop}/{n}', 'r7': f'/tmp/wt7-out/S/{prop}/{n}'}[rnd]
+        src = {'': f'/tmp/wt-out/{prop}/{n}', 'r2': f'/tmp/wt2-out/{prop}/{n}', 'r3': f'/tmp/wt3-out/{prop}/{n}', 'r4': f'/tmp/wt6-out/{prop}/{n}', 'r5': f'/tmp/wt8-out/{prop}/{n}', 'r6': f'/tmp/wt10-out/{prop}/{n}', 'r7': f'/tmp/wt7-out/S/{prop}/{n}', 'r8': f'/tmp/wt8-out/{prop}/{n}'}[rnd]
         ok = ('error' not in r and r.get('suite', {}).get('failed') == 0 and r.get('suite', {}).get('passed', 0) >= 109
               and 'ok.' in r.get('demo_without_patch', '') and 'FAILED' in r.get('demo_with_patch', ''))
         if not ok:
@@ -27,7 +27,7 @@ for f in sys.argv[1:]:
             except Exception as e2: agent = {'note': f'agent meta unreadable: {e}; {e2}'}
         caught = {p: c for p, c in r['checks'].items()}
         meta = {
-            'id': f'{prop}-{rnd}s{n}', 'property': prop, 'origin': 'independent sub-agent given only the property text and a scratch worktree' + {'': '', 'r2': ' (second round: asked for changes of a different character than boundary slips: values produced by other operations, cooperating edits, data-tied, rarely used entry points, left-over state, sub-tolerance precision loss)', 'r3': ' (third round: asked for sequence-dependent bugs, trait-surface bugs, error-path changes, far-range behaviour, semantic drift that looks like an improvement, and bugs planted in shared lower-level code)', 'r4': ' (fourth round: asked for bugs that need a combination of two input dimensions, bugs at ordinary mid-range values, partial regressions of recent repairs, alternative entry points, re-used or copied stateful values, and numerically subtle float changes)', 'r5': ' (fifth round: asked for consistent pairs - a function and its inverse wrong in the same way -, interior table entries, outputs of one operation fed into another family, loop bounds and early exits, dependence on the length or shape of an input, and anything judged hard for a checker that enumerates boundaries with independent reference arithmetic)', 'r7': ' (seventh round: asked for six kinds - two cooperating sites that each look fine alone, values produced by one operation and fed into another, narrow or sparse input sets defined by a relation, rarely used entry points and trait impls, configuration-dependent paths, equivalent-looking rewrites wrong under a rare carry, rounding, overflow or sign alignment)', 'r6': ' (sixth round: asked for pure functions made stateful - wrong only after three or more calls, after a particular earlier call, from the N-th call on or for the first call of the process -, for sparse interior sets defined by an arithmetic relation between arguments, and for equivalent-looking rewrites that differ under a rare carry or sign alignment)'}[rnd], 'kind': agent.get('kind'),
+            'id': f'{prop}-{rnd}s{n}', 'property': prop, 'origin': 'independent sub-agent given only the property text and a scratch worktree' + {'': '', 'r2': ' (second round: asked for changes of a different character than boundary slips: values produced by other operations, cooperating edits, data-tied, rarely used entry points, left-over state, sub-tolerance precision loss)', 'r3': ' (third round: asked for sequence-dependent bugs, trait-surface bugs, error-path changes, far-range behaviour, semantic drift that looks like an improvement, and bugs planted in shared lower-level code)', 'r4': ' (fourth round: asked for bugs that need a combination of two input dimensions, bugs at ordinary mid-range values, partial regressions of recent repairs, alternative entry points, re-used or copied stateful values, and numerically subtle float changes)', 'r5': ' (fifth round: asked for consistent pairs - a function and its inverse wrong in the same way -, interior table entries, outputs of one operation fed into another family, loop bounds and early exits, dependence on the length or shape of an input, and anything judged hard for a checker that enumerates boundaries with independent reference arithmetic)', 'r8': ' (eighth round: told in general terms what kind of checker they were up against - systematic enumeration of boundary lattices, all entry points, short call sequences, independent reference arithmetic - and asked for what it would miss: interior sets behind a threshold the change itself introduces, combinations of two dimensions each fine alone, long-range dependence, numerically subtle precision loss, two public paths to the same thing that disagree, or anything else judged hard)', 'r7': ' (seventh round: asked for six kinds - two cooperating sites that each look fine alone, values produced by one operation and fed into another, narrow or sparse input sets defined by a relation, rarely used entry points and trait impls, configuration-dependent paths, equivalent-looking rewrites wrong under a rare carry, rounding, overflow or sign alignment)', 'r6': ' (sixth round: asked for pure functions made stateful - wrong only after three or more calls, after a particular earlier call, from the N-th call on or for the first call of the process -, for sparse interior sets defined by an arithmetic relation between arguments, and for equivalent-looking rewrites that differ under a rare carry or sign alignment)'}[rnd], 'kind': agent.get('kind'),
             'summary': agent.get('summary'), 'needs_to_manifest': agent.get('needs'),
             'verified_here': {
                 'how': 'tools/scratch_eval.py in a scratch worktree of /repo HEAD with a scratch copy of the harness',
